@@ -1349,6 +1349,42 @@ func readerReentryRule(w *World, r *Report, rule string) {
 		}
 	}
 	r.add(rule, nil, "functions the reader's entry point reaches", token.NoPos, "ok", fmt.Sprintf("%d functions examined, %d re-entries", len(fns), n))
+	// the read-string builtin is an entry point too: a function of it that calls itself again with a text that
+	// still holds the whole text it was given reads for ever when the text is rejected for the same reason again
+	if rs := w.builtin("read-string"); rs != nil {
+		for _, f := range w.withPkgHelpersOf(rs) {
+			if f == nil || len(f.Blocks) == 0 {
+				continue
+			}
+			for _, b := range f.Blocks {
+				for _, in := range b.Instrs {
+					c, ok := in.(*ssa.Call)
+					if !ok || c.Call.StaticCallee() != f {
+						continue
+					}
+					grows := false
+					for i, a := range c.Call.Args {
+						if i >= len(f.Params) || !isStringVal(unboxed(a)) {
+							continue
+						}
+						for _, part := range concatParts(unboxed(a)) {
+							switch src := unboxed(part).(type) {
+							case *ssa.Parameter:
+								grows = grows || src.Parent() == f
+							case *ssa.TypeAssert:
+								if p, isP := src.X.(*ssa.Parameter); isP && p.Parent() == f {
+									grows = true
+								}
+							}
+						}
+					}
+					if grows {
+						r.bad(rule, f, "the builtin reads its own text again", c.Pos(), w.fnName(f)+" calls itself with a text that contains all of the text it was given: where the longer text is refused for the same reason the recursion never ends (read-string returns neither a form nor an error, and the stack overflow that follows cannot be recovered)")
+					}
+				}
+			}
+		}
+	}
 }
 
 // variadicNotCappedRule: swap! hands the update function the current value and every further argument:
